@@ -136,9 +136,15 @@ Ell(i) ==
         [e |-> [j \in Axes(i) |-> IF j = 1 THEN I(-1) ELSE Full], ell |-> 2, short |-> FALSE],
         [e |-> [j \in Axes(i) |-> IF j = 1 THEN I(0) ELSE Full], ell |-> 0, short |-> TRUE],
         [e |-> [j \in Axes(i) |-> IF j = 1 THEN S(NONE, NONE, 2) ELSE IF j = Nd(i) THEN I(-1) ELSE Full], ell |-> 2, short |-> FALSE]}
+       \* an Ellipsis that expands to NO axis: written between an integer and a list (separates them), or at the end
+       \cup (IF Nd(i) < 3 THEN {}
+            ELSE LET lst(j) == IF Sh(i)[j] >= 2 THEN L(<<Sh(i)[j] - 1, 0>>) ELSE L(<<0>>) IN
+                 {[e |-> [j \in Axes(i) |-> IF j = Nd(i) - 1 THEN I(0) ELSE IF j = Nd(i) THEN lst(j) ELSE S(NONE, NONE, 1)], ell |-> Nd(i), short |-> FALSE],
+                  [e |-> [j \in Axes(i) |-> IF j = Nd(i) - 1 THEN lst(j) ELSE IF j = Nd(i) THEN I(-1) ELSE S(NONE, NONE, 1)], ell |-> Nd(i), short |-> FALSE],
+                  [e |-> [j \in Axes(i) |-> IF j = Nd(i) - 1 THEN I(0) ELSE IF j = Nd(i) THEN lst(j) ELSE S(NONE, NONE, 1)], ell |-> Nd(i) + 1, short |-> FALSE]})
 DoIndex == \E i \in DOMAIN objs : \E x \in OneAxis(i) \cup Mixed(i) \cup Ell(i) :
    /\ Room(FALSE) /\ IndexOK(objs[i], x.e)
-   /\ Put(i, FALSE, IndexResult(objs[i], x.e)) /\ UNCHANGED nbase
+   /\ Put(i, FALSE, IndexResult(objs[i], x.e, x.ell)) /\ UNCHANGED nbase
    /\ Log(Ev("index", i, FALSE, x))
 
 MCNext == IF Mode = "c06" THEN DoPadCrop \/ DoPad \/ DoCrop \/ DoBin \/ DoResample
